@@ -79,6 +79,7 @@ def run(ctx):
         return
     exe, judge, dump = env
     findings = common.load_known_findings("C10")
+    findings = [e for e in findings if "kind" in e]       # the gap-kind findings; C10-incparse-stale is handled by tools/histfeat.py
     known_kinds = {e["kind"] for e in findings}
     # 1. the witnesses of the listed findings: which still fail?
     wcases, wentries = [], []
@@ -212,7 +213,7 @@ def replay(ctx, path):
     if env is None:
         return 1
     exe, judge, dump = env
-    known_kinds = {e["kind"] for e in common.load_known_findings("C10")}
+    known_kinds = {e["kind"] for e in common.load_known_findings("C10") if "kind" in e}
     fails, st = oracle(exe, dump, [dict(text=r["text"], insert_spaces=r.get("insert_spaces", True), tab_size=r.get("tab_size", 4),
                                         comments=r["comments"])], known_kinds)
     print("document :", repr(r["text"]))
